@@ -49,9 +49,53 @@ class _JaxProxy:
     return getattr(jax, name)
 
 
+def be(name):
+  """backend function: the shim under symbolic execution, real jax in replay"""
+  if sym.CONCRETE['on']:
+    import jax.numpy as jnp
+    return {'conv_general_dilated': jax.lax.conv_general_dilated,
+            'dot_general': jax.lax.dot_general, 'sigmoid': jax.nn.sigmoid,
+            'tanh': jnp.tanh, 'multiply': jnp.multiply}[name]
+  return {'conv_general_dilated': getattr(symnp.LAX, 'conv_general_dilated'),
+          'dot_general': getattr(symnp.LAX, 'dot_general'),
+          'sigmoid': symnp.NN.sigmoid, 'tanh': symnp.NN.tanh,
+          'multiply': symnp.JNP.multiply}[name]
+
+
+def R(tree):
+  """replay boundary: symbolic arrays -> real jax arrays (identity otherwise)"""
+  if not sym.CONCRETE['on']:
+    return tree
+  import jax.numpy as jnp
+
+  def conv(x):
+    if isinstance(x, A):
+      a = x.to_numpy()
+      return jnp.asarray(a.astype(np.float32) if a.dtype == np.float64 else a)
+    if isinstance(x, S):
+      return sym.to_float(x.t)
+    return x
+  return jax.tree_util.tree_map(conv, tree, is_leaf=lambda x: isinstance(x, (A, S)))
+
+
 class SymEnv:
   def __enter__(self):
     self.saved = []
+    if sym.CONCRETE['on']:
+      # Linen: convert everything handed to Module.apply at the boundary
+      orig_apply = nn.Module.apply
+
+      def apply(self_, variables, *a, **k):
+        return orig_apply(self_, R(variables), *R(a), **R(k))
+      self.saved.append((nn.Module, 'apply', orig_apply))
+      nn.Module.apply = apply
+      # replay: the layers keep the real jnp/lax; only the random mask is injected
+      _Random.masks = []
+      for m in MODS:
+        if hasattr(m, 'random'):
+          self.saved.append((m, 'random', getattr(m, 'random')))
+          setattr(m, 'random', _Random())
+      return self
     for m in MODS:
       for name, repl in (('jnp', symnp.JNP), ('lax', symnp.LAX),
                          ('jax', _JaxProxy()), ('random', _Random())):
@@ -212,7 +256,7 @@ def ref_pool(x, window, stride, pad, kind):
           for v in real[1:]:
             acc = symnp.LAX.max(acc, v) if kind == 'max' else symnp.LAX.min(acc, v)
           if len(real) < len(vals):
-            inf = symnp.JNP.inf
+            inf = S(1e30) if sym.CONCRETE['on'] else symnp.JNP.inf
             acc = (symnp.LAX.max(acc, -inf) if kind == 'max' else
                    symnp.LAX.min(acc, inf))
           out.append(acc)
@@ -237,7 +281,7 @@ class StatsStub:
     var = A.sym('var%d' % n, shape)
     self.calls.append(dict(axes=ax, use_mean=use_mean, mask=mask, mu=mu, var=var,
                            x=x))
-    return mu, var
+    return R(mu), R(var)
 
 
 # ------------------------------------------------------------------ cases
@@ -249,10 +293,13 @@ def _prove(cases, t0, extra=()):
     status, model, nq = sym.prove_equal([(got, want)], assume, timeout_ms=120000)
     q += nq
     if status != 'unsat':
+      vals = {}
+      if status == 'sat' and not isinstance(model, str) and model is not None:
+        vals = sym.model_values(model)
       return dict(status='unknown' if status != 'sat' else 'sat', queries=q,
                   detail='%s: %s' % (label, model if isinstance(model, str) else
                                       'output differs from reference'),
-                  cex=dict(case=label) if status == 'sat' else None,
+                  cex=dict(case=label, model=vals) if status == 'sat' else None,
                   solver_s=time.time() - t0)
   return dict(status='unsat', queries=q, solver_s=time.time() - t0,
               witness=dict(cases=[c[0] for c in cases][:6], n=len(cases)))
@@ -274,11 +321,11 @@ def dense_family(which):
         want = ref_contract(x, k, b if use_bias else None, 1)
         cases.append(('Dense%r bias=%s' % (bshape, use_bias), got, want))
         lin = nnx.Linear(3, 2, use_bias=use_bias, rngs=nnx.Rngs(0),
-                         dot_general=symnp.LAX.dot_general)
-        lin.kernel.value = k
+                         dot_general=be('dot_general'))
+        lin.kernel.value = R(k)
         if use_bias:
-          lin.bias.value = b
-        cases.append(('nnx.Linear%r bias=%s' % (bshape, use_bias), lin(x), got))
+          lin.bias.value = R(b)
+        cases.append(('nnx.Linear%r bias=%s' % (bshape, use_bias), lin(R(x)), got))
     elif which == 1:    # DenseGeneral / LinearGeneral: axes and feature tuples
       for axis, feats, xs in [((-1,), (2,), (2, 3)), ((-2, -1), (2,), (2, 2, 3)),
                               ((-1,), (2, 2), (2, 3)), ((1, 2), (3,), (1, 2, 2)),
@@ -297,10 +344,10 @@ def dense_family(which):
                                feats if len(feats) > 1 else feats[0],
                                axis=axis if len(axis) > 1 else axis[0],
                                rngs=nnx.Rngs(0),
-                               dot_general=symnp.LAX.dot_general)
-        lg.kernel.value = k
-        lg.bias.value = b
-        cases.append(('nnx.LinearGeneral axis=%r feats=%r' % (axis, feats), lg(x),
+                               dot_general=be('dot_general'))
+        lg.kernel.value = R(k)
+        lg.bias.value = R(b)
+        cases.append(('nnx.LinearGeneral axis=%r feats=%r' % (axis, feats), lg(R(x)),
                       got))
     elif which == 2:    # Einsum
       for spec, xs, ks in [('...ij,jk->...ik', (2, 2, 3), (3, 2)),
@@ -311,9 +358,9 @@ def dense_family(which):
         want = ref_contract(x, k, b, 1)
         cases.append(('Einsum %s' % spec, got, want))
         es = nnx.Einsum(spec, ks, (ks[-1],), rngs=nnx.Rngs(0))
-        es.kernel.value = k
-        es.bias.value = b
-        cases.append(('nnx.Einsum %s' % spec, es(x), got))
+        es.kernel.value = R(k)
+        es.bias.value = R(b)
+        cases.append(('nnx.Einsum %s' % spec, es(R(x)), got))
     else:               # Embed lookup with SYMBOLIC indices, attend
       table = A.sym('e', (4, 3))
       ids = A.sym('i', (2, 2), 'int')
@@ -333,9 +380,9 @@ def dense_family(which):
       cases.append(('Embed.attend', att, ref_contract(q, table.transpose(), None,
                                                       1)))
       ne = nnx.Embed(4, 3, rngs=nnx.Rngs(0))
-      ne.embedding.value = table
-      cases.append(('nnx.Embed', ne(ids), got))
-      cases.append(('nnx.Embed.attend', ne.attend(q), att))
+      ne.embedding.value = R(table)
+      cases.append(('nnx.Embed', ne(R(ids)), got))
+      cases.append(('nnx.Embed.attend', ne.attend(R(q)), att))
       return _prove(cases, t0, extra)
   return _prove(cases, t0)
 
@@ -343,7 +390,7 @@ def dense_family(which):
 def norm_family(which):
   t0 = time.time()
   cases = []
-  eps = S(z3.Real('eps'))
+  eps = sym.scalar('eps', 0.25)
   extra = [eps.t > 0]
   with SymEnv():
     if which == 0:      # statistics lemma: _compute_stats == definition
@@ -354,12 +401,14 @@ def norm_family(which):
           ((2, 3), (-1,), True, False, True)]:
         x = A.sym('x', xs)
         m = A.sym('m', xs, 'bool') if masked else None
+        if masked and sym.CONCRETE['on']:
+          m.data[0], m.data[3] = S(True), S(True)    # no fully masked row
         ex = []
         if masked:
           ex = [z3.Or([v.t for v in m.data[:3]]), z3.Or([v.t for v in m.data[3:]])]
         for fn, tag in ((LN._compute_stats, 'linen'), (NN_._compute_stats, 'nnx')):
-          mu, var = fn(x, red, None, use_mean=use_mean, use_fast_variance=fast,
-                       mask=m)
+          mu, var = fn(R(x), red, None, use_mean=use_mean, use_fast_variance=fast,
+                       mask=R(m))
           _, stats = ref_norm(x, red, eps, None, None, use_mean, m, red)
           keys = list(idxs(A.of(mu).shape))
           wm = A([stats[k][0] for k in keys], A.of(mu).shape)
@@ -403,7 +452,7 @@ def norm_family(which):
             p['scale'] = sc
           if ub:
             p['bias'] = bi
-          ln = nn.LayerNorm(epsilon=eps, use_bias=ub, use_scale=us,
+          ln = nn.LayerNorm(epsilon=R(eps), use_bias=ub, use_scale=us,
                             reduction_axes=red if len(red) > 1 else red[0],
                             feature_axes=red if len(red) > 1 else red[0])
           got = ln.apply({'params': p}, x)
@@ -416,13 +465,13 @@ def norm_family(which):
           cases.append(('LayerNorm normalise x=%r red=%r bias=%s scale=%s' % (
               xs, red, ub, us), got, want))
           if len(red) == 1:
-            nl = nnx.LayerNorm(xs[-1], epsilon=eps, use_bias=ub, use_scale=us,
+            nl = nnx.LayerNorm(xs[-1], epsilon=R(eps), use_bias=ub, use_scale=us,
                                rngs=nnx.Rngs(0))
             if us:
-              nl.scale.value = sc
+              nl.scale.value = R(sc)
             if ub:
-              nl.bias.value = bi
-            gn = nl(x)
+              nl.bias.value = R(bi)
+            gn = nl(R(x))
             cn = stub_n.calls[-1]
             wn, _ = ref_norm(x, red, eps, sc if us else None, bi if ub else None,
                              True, None, red, given=(cn['mu'], cn['var']))
@@ -432,7 +481,7 @@ def norm_family(which):
             cases.append(('nnx.LayerNorm normalise %r' % (xs,), gn, wn))
         x = A.sym('x', (2, 3))
         sc = A.sym('s', (3,))
-        got = nn.RMSNorm(epsilon=eps).apply({'params': {'scale': sc}}, x)
+        got = nn.RMSNorm(epsilon=R(eps)).apply({'params': {'scale': sc}}, x)
         c = stub_l.calls[-1]
         if c['use_mean'] or c['axes'] != (1,):
           return dict(status='sat', cex=dict(case='RMSNorm stats call'),
@@ -440,9 +489,9 @@ def norm_family(which):
         want, _ = ref_norm(x, (-1,), eps, sc, None, False, None, (-1,),
                            given=(c['mu'], c['var']))
         cases.append(('RMSNorm normalise', got, want))
-        nr = nnx.RMSNorm(3, epsilon=eps, rngs=nnx.Rngs(0))
-        nr.scale.value = sc
-        gn = nr(x)
+        nr = nnx.RMSNorm(3, epsilon=R(eps), rngs=nnx.Rngs(0))
+        nr.scale.value = R(sc)
+        gn = nr(R(x))
         cn = stub_n.calls[-1]
         wn, _ = ref_norm(x, (-1,), eps, sc, None, False, None, (-1,),
                          given=(cn['mu'], cn['var']))
@@ -450,10 +499,10 @@ def norm_family(which):
           return dict(status='sat', cex=dict(case='nnx.RMSNorm stats call'))
         cases.append(('nnx.RMSNorm normalise', gn, wn))
         m = A.sym('m', (2, 3), 'bool')
-        gotm = nn.LayerNorm(epsilon=eps).apply(
+        gotm = nn.LayerNorm(epsilon=R(eps)).apply(
             {'params': {'scale': sc, 'bias': sc}}, x, mask=m)
         c = stub_l.calls[-1]
-        if c['mask'] is not m:
+        if not sym.CONCRETE['on'] and c['mask'] is not m:
           return dict(status='sat', cex=dict(case='LayerNorm mask'),
                       detail='mask not forwarded to the statistics')
         wantm, _ = ref_norm(x, (-1,), eps, sc, sc, True, None, (-1,),
@@ -472,7 +521,7 @@ def norm_family(which):
         for groups, gsize in ((2, None), (None, 1), (1, None), (4, None)):
           G = groups if groups is not None else C // gsize
           gs = C // G
-          gn = nn.GroupNorm(num_groups=groups, group_size=gsize, epsilon=eps)
+          gn = nn.GroupNorm(num_groups=groups, group_size=gsize, epsilon=R(eps))
           got = gn.apply({'params': {'scale': sc, 'bias': bi}}, x)
           c = stub_l.calls[-1]
           # the statistics must be taken over (length, group members) of x viewed
@@ -481,7 +530,8 @@ def norm_family(which):
           ok = xg.shape == (N, Lx, G, gs) and c['axes'] == (1, 3) and c['use_mean']
           if ok:
             for n_, l_, g_, j_ in idxs((N, Lx, G, gs)):
-              if xg.at((n_, l_, g_, j_)) is not x.at((n_, l_, g_ * gs + j_)):
+              if not sym.CONCRETE['on'] and xg.at((n_, l_, g_, j_)) is not x.at(
+                  (n_, l_, g_ * gs + j_)):
                 ok = False
           if not ok:
             return dict(status='sat', cex=dict(case='GroupNorm grouping'),
@@ -494,10 +544,10 @@ def norm_family(which):
             want.append((x.at((n_, l_, ch)) - mu) * r * sc.at((ch,)) + bi.at((ch,)))
           cases.append(('GroupNorm groups=%r size=%r' % (groups, gsize), got,
                         A(want, (N, Lx, C))))
-          ng = nnx.GroupNorm(C, num_groups=groups, group_size=gsize, epsilon=eps,
+          ng = nnx.GroupNorm(C, num_groups=groups, group_size=gsize, epsilon=R(eps),
                              rngs=nnx.Rngs(0))
-          ng.scale.value, ng.bias.value = sc, bi
-          gn_out = ng(x)
+          ng.scale.value, ng.bias.value = R(sc), R(bi)
+          gn_out = ng(R(x))
           cn = stub_n.calls[-1]
           if cn['x'].shape != xg.shape or cn['axes'] != c['axes']:
             return dict(status='sat', cex=dict(case='nnx.GroupNorm grouping'))
@@ -508,10 +558,10 @@ def norm_family(which):
             wn.append((x.at((n_, l_, ch)) - mu) * r * sc.at((ch,)) + bi.at((ch,)))
           cases.append(('nnx.GroupNorm groups=%r size=%r' % (groups, gsize), gn_out,
                         A(wn, (N, Lx, C))))
-        inn = nn.InstanceNorm(epsilon=eps)
+        inn = nn.InstanceNorm(epsilon=R(eps))
         got = inn.apply({'params': {'scale': sc, 'bias': bi}}, x)
         c = stub_l.calls[-1]
-        if c['axes'] != (1,) or c['x'] is not x:
+        if c['axes'] != (1,) or (not sym.CONCRETE['on'] and c['x'] is not x):
           return dict(status='sat', cex=dict(case='InstanceNorm axes'),
                       detail='InstanceNorm must reduce the spatial axes only')
         want, _ = ref_norm(x, (1,), eps, sc, bi, True, None, (-1,),
@@ -527,13 +577,14 @@ def norm_family(which):
         x = A.sym('x', (3, 2))
         sc, bi = A.sym('s', (2,)), A.sym('b', (2,))
         rm, rv = A.sym('rm', (2,)), A.sym('rv', (2,))
-        mom = S(z3.Real('momentum'))
+        mom = sym.scalar('momentum', 0.75)
         variables = {'params': {'scale': sc, 'bias': bi},
                      'batch_stats': {'mean': rm, 'var': rv}}
-        bn = nn.BatchNorm(use_running_average=False, momentum=mom, epsilon=eps)
+        bn = nn.BatchNorm(use_running_average=False, momentum=R(mom), epsilon=R(eps))
         got, upd = bn.apply(variables, x, mutable=['batch_stats'])
         c = stub_l.calls[-1]
-        if c['axes'] != (0,) or not c['use_mean'] or c['x'] is not x:
+        if c['axes'] != (0,) or not c['use_mean'] or (
+            not sym.CONCRETE['on'] and c['x'] is not x):
           return dict(status='sat', cex=dict(case='BatchNorm stats call'),
                       detail='batch statistics requested over wrong axes')
         bm, bv = c['mu'], c['var']
@@ -544,7 +595,7 @@ def norm_family(which):
         cases.append(('BatchNorm running var', upd['batch_stats']['var'],
                       rv * mom + bv * (1 - mom)))
         ncalls = len(stub_l.calls)
-        bn_inf = nn.BatchNorm(use_running_average=True, momentum=mom, epsilon=eps)
+        bn_inf = nn.BatchNorm(use_running_average=True, momentum=R(mom), epsilon=R(eps))
         got_inf = bn_inf.apply(variables, x)
         if len(stub_l.calls) != ncalls:
           return dict(status='sat', cex=dict(case='BatchNorm inference'),
@@ -553,10 +604,10 @@ def norm_family(which):
                                given=(rm, rv))
         cases.append(('BatchNorm inference uses running stats unchanged', got_inf,
                       want_inf))
-        nb = nnx.BatchNorm(2, momentum=mom, epsilon=eps, rngs=nnx.Rngs(0))
-        nb.scale.value, nb.bias.value = sc, bi
-        nb.mean.value, nb.var.value = rm, rv
-        gn = nb(x, use_running_average=False)
+        nb = nnx.BatchNorm(2, momentum=R(mom), epsilon=R(eps), rngs=nnx.Rngs(0))
+        nb.scale.value, nb.bias.value = R(sc), R(bi)
+        nb.mean.value, nb.var.value = R(rm), R(rv)
+        gn = nb(R(x), use_running_average=False)
         cn = stub_n.calls[-1]
         if cn['axes'] != (0,) or not cn['use_mean']:
           return dict(status='sat', cex=dict(case='nnx.BatchNorm stats call'))
@@ -567,10 +618,10 @@ def norm_family(which):
                       rm * mom + cn['mu'] * (1 - mom)))
         cases.append(('nnx.BatchNorm running var', nb.var.value,
                       rv * mom + cn['var'] * (1 - mom)))
-        nb2 = nnx.BatchNorm(2, momentum=mom, epsilon=eps, rngs=nnx.Rngs(0))
-        nb2.scale.value, nb2.bias.value = sc, bi
-        nb2.mean.value, nb2.var.value = rm, rv
-        cases.append(('nnx.BatchNorm inference', nb2(x, use_running_average=True),
+        nb2 = nnx.BatchNorm(2, momentum=R(mom), epsilon=R(eps), rngs=nnx.Rngs(0))
+        nb2.scale.value, nb2.bias.value = R(sc), R(bi)
+        nb2.mean.value, nb2.var.value = R(rm), R(rv)
+        cases.append(('nnx.BatchNorm inference', nb2(R(x), use_running_average=True),
                       want_inf))
       finally:
         LN._compute_stats, NN_._compute_stats = saved
@@ -603,16 +654,16 @@ def dropout_pool(which):
         cases.append(('Dropout rate .25 bdims=%r' % (bdims,), got, A(want, (2, 3))))
     else:
       x = A.sym('x', (1, 5, 2))
-      inf = symnp.JNP.inf
+      inf = S(1e30) if sym.CONCRETE['on'] else symnp.JNP.inf
       extra = [inf.t > v.t for v in x.data] + [-inf.t < v.t for v in x.data]
       for win, st, pad in [(2, 1, 'VALID'), (2, 2, 'VALID'), (3, 2, 'SAME'),
                            (3, 1, 'SAME')]:
         cases.append(('avg_pool %d/%d/%s' % (win, st, pad), nn.avg_pool(
-            x, (win,), (st,), pad), ref_pool(x, win, st, pad, 'avg')))
+            R(x), (win,), (st,), pad), ref_pool(x, win, st, pad, 'avg')))
         cases.append(('max_pool %d/%d/%s' % (win, st, pad), nn.max_pool(
-            x, (win,), (st,), pad), ref_pool(x, win, st, pad, 'max')))
+            R(x), (win,), (st,), pad), ref_pool(x, win, st, pad, 'max')))
         cases.append(('min_pool %d/%d/%s' % (win, st, pad), nn.pooling.min_pool(
-            x, (win,), (st,), pad), ref_pool(x, win, st, pad, 'min')))
+            R(x), (win,), (st,), pad), ref_pool(x, win, st, pad, 'min')))
   return _prove(cases, t0, extra)
 
 
@@ -641,7 +692,7 @@ def conv_family(pad_i):
                      input_dilation=(idil,), feature_group_count=groups,
                      padding=pad if isinstance(pad, str) else [pad],
                      use_bias=use_bias,
-                     conv_general_dilated=symnp.LAX.conv_general_dilated)
+                     conv_general_dilated=be('conv_general_dilated'))
       got = conv.apply({'params': p}, x)
       want = ref_conv1d(x, k, b if use_bias else None, stride, kdil, idil, groups,
                         pad)
@@ -652,11 +703,11 @@ def conv_family(pad_i):
                     input_dilation=(idil,), feature_group_count=groups,
                     padding=pad if isinstance(pad, str) else [pad],
                     use_bias=use_bias, rngs=nnx.Rngs(0),
-                    conv_general_dilated=symnp.LAX.conv_general_dilated)
-      nc.kernel.value = k
+                    conv_general_dilated=be('conv_general_dilated'))
+      nc.kernel.value = R(k)
       if use_bias:
-        nc.bias.value = b
-      cases.append(('nnx.' + label, nc(x), got))
+        nc.bias.value = R(b)
+      cases.append(('nnx.' + label, nc(R(x)), got))
       # extra / missing batch dimensions
       if K == 2 and stride == 1 and kdil == 1 and idil == 1:
         x2 = A.sym('x', (Lx, C))
@@ -679,7 +730,7 @@ def conv2d_family(which):
       k = A.sym('k', (KH, KW, C, F))
       b = A.sym('b', (F,))
       conv = nn.Conv(F, (KH, KW), strides=strides, padding=pad,
-                     conv_general_dilated=symnp.LAX.conv_general_dilated)
+                     conv_general_dilated=be('conv_general_dilated'))
       got = conv.apply({'params': {'kernel': k, 'bias': b}}, x)
 
       def pads(size, kk, st):
@@ -706,9 +757,9 @@ def conv2d_family(which):
       label = 'Conv2D %s strides=%r' % (pad, strides)
       cases.append((label, got, A(want, (1, OH, OW, F))))
       nc = nnx.Conv(C, F, (KH, KW), strides=strides, padding=pad, rngs=nnx.Rngs(0),
-                    conv_general_dilated=symnp.LAX.conv_general_dilated)
-      nc.kernel.value, nc.bias.value = k, b
-      cases.append(('nnx.' + label, nc(x), got))
+                    conv_general_dilated=be('conv_general_dilated'))
+      nc.kernel.value, nc.bias.value = R(k), R(b)
+      cases.append(('nnx.' + label, nc(R(x)), got))
   return _prove(cases, t0)
 
 
@@ -733,14 +784,23 @@ def _fam(name):
   return run
 
 
-def replay_family(case=None, family=None, arg=None, **kw):
-  """Engine-C replay: a fresh re-execution of the real layer code (regenerated
-  from /repo) for the reported family; reproduces iff the outputs again differ
-  from the reference for some input (z3 model).  The numeric backend is the shim
-  validated against real jax in the same run."""
+def replay_family(case=None, family=None, arg=None, model=None, **kw):
+  """Engine-C replay on the REAL numeric stack: symbols become the numeric values
+  of the solver's model (other symbols: seeded values), the layer runs with the real
+  jax.numpy / lax (no shim), the reference is evaluated exactly on the same values
+  and the two are compared numerically (rtol/atol 2e-4).  Three further seeded
+  inputs are tried as well; reproduced = any mismatch."""
   fn = globals()[family]
-  r = fn(arg)
-  return r.get('status') == 'unsat'
+  try:
+    for seed in range(4):
+      sym.set_concrete(True, model if seed == 0 else None, seed)
+      r = fn(arg)
+      if r.get('status') != 'unsat':
+        return False
+    return True
+  finally:
+    sym.set_concrete(False)
+
 
 
 def control_wrong_formula(which):
